@@ -115,13 +115,14 @@ func DigestPowershell(r io.Reader, style PsSigStyle, hash crypto.Hash) (*PsDiges
 			return nil, err
 		}
 		if line == first {
-			// remove EOL from previous line
+			// remove EOL from previous line, if that is what it ends in
+			eol := "\r\n"
 			if isUtf16 {
-				saved = saved[:len(saved)-4]
-				sigSize = 4
-			} else {
-				saved = saved[:len(saved)-2]
-				sigSize = 2
+				eol = toUtf16(eol)
+			}
+			if strings.HasSuffix(saved, eol) {
+				saved = saved[:len(saved)-len(eol)]
+				sigSize = int64(len(eol))
 			}
 			// count the size of the signature
 			sigSize += int64(len(line))
